@@ -691,4 +691,42 @@ theorem parseSeq_noMeta (m : Mode) : ∀ (fuel : Nat) (ob : Bool) (prev : Rune) 
           · simp only [hrb, if_false] at hm
             exact fin ob hm
 
+/-! ### modes without EntireString: "contains" semantics -/
+
+theorem tails_mem (t u : Str) : u ∈ tails t ↔ ∃ a, t = a ++ u := by
+  induction t with
+  | nil =>
+    simp only [tails, List.mem_singleton]
+    constructor
+    · rintro rfl; exact ⟨[], rfl⟩
+    · rintro ⟨a, h⟩
+      exact (List.append_eq_nil_iff.mp h.symm).2
+  | cons x t ih =>
+    simp only [tails, List.mem_cons, ih]
+    constructor
+    · rintro (rfl | ⟨a, rfl⟩)
+      · exact ⟨[], rfl⟩
+      · exact ⟨x :: a, rfl⟩
+    · rintro ⟨a, h⟩
+      cases a with
+      | nil => left; simpa using h.symm
+      | cons y a' =>
+        simp at h
+        right; exact ⟨a', h.2⟩
+
+/-- Substring search with a parsed pattern: some substring is in the pattern's language
+    (read from the start of a path component, as `globMatch` does). -/
+theorem search_iff (m : Mode) (g : Glob) (t : Str) :
+    (tails t).any (fun u => gmatch m g true u (fun _ _ => true)) = true ↔
+      ∃ a b c, t = a ++ b ++ c ∧ GDen m g true b := by
+  rw [List.any_eq_true]
+  constructor
+  · rintro ⟨u, hu, hg⟩
+    obtain ⟨a, rfl⟩ := (tails_mem t u).mp hu
+    obtain ⟨s1, s2, rfl, hd, _⟩ := (gmatch_iff m g true u _).mp hg
+    exact ⟨a, s1, s2, by simp, hd⟩
+  · rintro ⟨a, b, c, rfl, hd⟩
+    refine ⟨b ++ c, (tails_mem _ _).mpr ⟨a, by simp⟩, ?_⟩
+    exact (gmatch_iff m g true (b ++ c) _).mpr ⟨b, c, rfl, hd, rfl⟩
+
 end ShVerif.L3
